@@ -1,6 +1,7 @@
 import U3.Model.Pool
 import U3.Lemmas.Pool
 import U3.Lemmas.PoolProv
+import U3.Lemmas.PoolLink
 /-! # C03 — a response only ever contains bytes sent in reply to its own request
 
 All theorems are about `U3.Pool.step` / `U3.Pool.run` (the definitions the driver `u3-pool` runs), for
@@ -192,5 +193,71 @@ theorem C03_released_unread_witness :
     s'.log = [.connect 0, .send 0, .recv 0, .put (some 0), .send 0, .recv 0, .put (some 0)] ∧
     (s'.resps.map (·.fp)) = [none, some 0] := by
   decide
+
+/-! ### the second clause: "a connection whose previous exchange did not end cleanly never yields a
+response" — false on this tree in general (`C03_released_unread_witness`), true for every history
+that does not release a connection while its response is unread -/
+
+/-- **Partial** (full statement: the same without `hne`; it is false, see
+`C03_released_unread_witness`).  In every state reachable by a history without early release
+(`NoEarlyOp`: no `release_conn=True` together with `preload_content=False`, no `release_conn()` /
+`read(k)+release_conn()` by the caller — everything else is allowed: partial reads, `close()`,
+dropping responses, draining, streaming, closing the pool, any server script): for every *connected*
+connection `c` whose last response (`http.client`'s `__response`) is `r`,
+* if `r` is closed then it was read to its declared end (`length_remaining = 0`), and
+* if `r` is still open then it reads from `c`'s socket and holds `c` (`_connection = c`), so every way
+  of abandoning `r` — `close()`, a failed read, garbage collection — closes `c`.
+Hence no connection with an unfinished exchange is ever idle in the pool. -/
+theorem C03_unclean_never_yields_partial (ops : List Op) (n : Nat) (block proxy : Bool)
+    (hne : ∀ op ∈ ops, NoEarlyOp op) :
+    ∀ (c : Nat) (cn : Conn) (k r : Nat) (rs : Resp), (run (init n block proxy) ops).conns[c]? = some cn → cn.sock = some k →
+      cn.pending = some r → (run (init n block proxy) ops).resps[r]? = some rs →
+      (rs.fp = none → rs.length = some 0) ∧ (rs.fp ≠ none → rs.fp = some k ∧ rs.conn = some c) := by
+  intro c cn k r rs h1 h2 h3 h4
+  obtain ⟨_, q2, q3⟩ := (run_link ops n block proxy hne).pend c cn k r rs h1 h2 h3 h4
+  have q3' := q3 (by intro e; cases e)
+  simp only [reduceCtorEq, if_false] at q3'
+  refine ⟨q3'.1, fun hn => ⟨?_, q3'.2 hn⟩⟩
+  cases hfp : rs.fp with
+  | none => exact absurd hfp hn
+  | some k' => rw [q2 k' hfp]
+
+/-- … and therefore `getresponse()` yields a response on a connection only if that connection's
+previous response (if `http.client` still remembers one) had been read to its end: an unread or
+half-read previous response makes `getresponse()` raise `ResponseNotReady` instead. -/
+theorem C03_yield_only_after_complete_partial (ops : List Op) (n : Nat) (block proxy : Bool)
+    (hne : ∀ op ∈ ops, NoEarlyOp op) {c k k' rid r' : Nat} {rc : ReqCfg} {cn : Conn} {s' : State}
+    (hc : (run (init n block proxy) ops).conns[c]? = some cn) (hk : cn.sock = some k')
+    (hy : getResponse (run (init n block proxy) ops) c k rid rc = (s', .resp r')) :
+    ∀ (r0 : Nat) (rs0 : Resp), cn.pending = some r0 → (run (init n block proxy) ops).resps[r0]? = some rs0 →
+      rs0.fp = none ∧ rs0.length = some 0 := by
+  intro r0 rs0 hp hr0
+  have hcl : rs0.fp = none := by
+    cases hfp : rs0.fp with
+    | none => rfl
+    | some k0 =>
+      exfalso
+      have hst : Settled (run (init n block proxy) ops) c := by
+        intro cn1 r1 rs1 g1 g2 g3
+        rw [hc] at g1; cases g1
+        rw [hp] at g2; cases g2
+        rw [hr0] at g3; cases g3
+        simp [hfp]
+      rw [getResponse_notReady hst hc (by simp [hp])] at hy
+      cases hy
+  exact ⟨hcl, (C03_unclean_never_yields_partial ops n block proxy hne c cn k' r0 rs0 hc hk hp hr0).1 hcl⟩
+
+/-- non-vacuity: a history with a streamed response that is read partially and then closed, a
+preloaded request and a drained one satisfies the hypothesis … -/
+example : ∀ op ∈ [Op.request 0 { preload := false, release := false } (.count 2) [strayAfterBody], .dispose 0 (.readK 1),
+    .dispose 0 .close, .request 1 {} .off [strayAfter204], .request 2 { preload := false, release := false } .off [strayAfterBody],
+    .dispose 2 .drain, .closePool], NoEarlyOp op := by
+  intro op hm
+  simp only [List.mem_cons, List.mem_nil_iff, or_false] at hm
+  rcases hm with rfl | rfl | rfl | rfl | rfl | rfl | rfl <;> simp [NoEarlyOp, NoEarlyCfg, NoEarlyHow]
+
+/-- … and the history of the finding is exactly one that does not -/
+example : ¬ NoEarlyOp (.request 0 { preload := false, release := true } .off []) := by
+  simp [NoEarlyOp, NoEarlyCfg]
 
 end U3.Props
